@@ -312,7 +312,7 @@ impl CharSweep {
         if kind != K_NONE { faults.push(apply(&mut evs, kind, k, c, aux)); }
         let es = entries_for(profile != 0, kind == K_FAIL);
         let entry = es[(mix(run, 3) % es.len() as u64) as usize];
-        let mut sc = StreamSc { entry, target: Target::Value, opts: (false, false), src: Src::Events(evs), faults, context: 0, hint: 0 };
+        let mut sc = StreamSc { entry, target: Target::Value, opts: (false, false), src: Src::Events(evs), faults, context: 0, hint: 0, reenter_at: 0 };
         sc.normalise();
         (sc, kind, if kind == K_NONE { None } else { Some(k) })
     }
@@ -360,7 +360,7 @@ impl ByteSweep {
         let mut faults = vec![];
         if kind != K_NONE { faults.push(apply_bytes(&mut b, kind, k, aux)); }
         let entry = if mix(run, 5) & 1 == 0 { Entry::SliceWith } else { Entry::Slice };
-        (StreamSc { entry, target: Target::Value, opts: (false, false), src: Src::Bytes(b), faults, context: 0, hint: 0 }, kind, if kind == K_NONE { None } else { Some(k) })
+        (StreamSc { entry, target: Target::Value, opts: (false, false), src: Src::Bytes(b), faults, context: 0, hint: 0, reenter_at: 0 }, kind, if kind == K_NONE { None } else { Some(k) })
     }
 }
 
@@ -447,7 +447,7 @@ impl Search {
                 if first.map(|f| k < f.1).unwrap_or(true) { first = Some((kind, k.min(b.len()))); }
             }
             let entry = if rng.chance(1, 2) { Entry::SliceWith } else { Entry::Slice };
-            let sc = StreamSc { entry, target: Target::Value, opts: (false, false), src: Src::Bytes(b), faults, context: 0, hint: 0 };
+            let sc = StreamSc { entry, target: Target::Value, opts: (false, false), src: Src::Bytes(b), faults, context: 0, hint: 0, reenter_at: 0 };
             let at = byte_fault_item(&sc, first.map(|f| f.1));
             return (sc, first.map(|f| f.0).unwrap_or(K_NONE), at);
         }
@@ -470,7 +470,7 @@ impl Search {
         }
         let es = entries_for(profile != 0, has_fail);
         let entry = *rng.pick(es);
-        let mut sc = StreamSc { entry, target: Target::Value, opts: (false, false), src: Src::Events(evs), faults, context: 0, hint: 0 };
+        let mut sc = StreamSc { entry, target: Target::Value, opts: (false, false), src: Src::Events(evs), faults, context: 0, hint: 0, reenter_at: 0 };
         sc.truncate_after_terminal();
         sc.normalise();
         (sc, first.map(|f| f.0).unwrap_or(K_NONE), first.map(|f| f.1))
